@@ -235,7 +235,7 @@ class SetHandlerWorld(World):
     uses_sandbox = False
 
     def build(self):
-        return core.RecFaults()
+        return [core.RecFaults(), core.RecFaults()]  # two entities' tables in one process
 
     def enabled(self, st):
         return [("set", c.name, h.name) for c in ConditionCode for h in FaultHandlerCode]
@@ -243,16 +243,27 @@ class SetHandlerWorld(World):
     def apply(self, st, ev):
         out = {}
         try:
-            st.set_handler(ConditionCode[ev[1]], FaultHandlerCode[ev[2]])
-            out["got"] = st.get_fault_handler(ConditionCode[ev[1]]).name
+            st[0].set_handler(ConditionCode[ev[1]], FaultHandlerCode[ev[2]])
+            out["got"] = st[0].get_fault_handler(ConditionCode[ev[1]]).name
         except Exception as ex:  # noqa: BLE001
             out["exc"] = type(ex).__name__
+        # the other entity's table and a table created afterwards still hold the documented defaults
+        inv = {v: k for k, v in core.FH.items()}
+        for label, other in (("sibling", st[1]), ("fresh", core.RecFaults())):
+            tab = {c: inv[other.get_fault_handler(ConditionCode[c])] for c in DEFAULT_TABLE}
+            diff = {c: v for c, v in tab.items() if v != DEFAULT_TABLE[c]}
+            if diff:
+                out["leak_" + label] = diff
         return out
 
     def quiet(self, obs):
         return True
 
     def check(self, st, ev, obs):
+        for label in ("sibling", "fresh"):
+            if "leak_" + label in obs:
+                return [Violation(P, "C14.table_shared", f"set_handler({ev[1]}, {ev[2]}) on one fault handler object changed the table of a {label} one: {obs['leak_' + label]}",
+                                  other=label)]
         in_table = ev[1] in DEFAULT_TABLE
         if in_table:
             if obs.get("got") != ev[2]:
